@@ -1,7 +1,7 @@
 """C20 - duplicated rules never contradict each other."""
 import common
 
-THEOREMS = ["c20_label_pairs", "c20_uri_host_pair", "c20_uri_host_old_refuted", "c20_mirror", "c20_limit_pairs", "c20_name_twins", "c20_san_ian_twins", "c20_pub_suffix_copy_differs", "c20_raw_twins"]
+THEOREMS = ["c20_label_pairs", "c20_uri_host_pair", "c20_uri_host_old_refuted", "c20_mirror", "c20_limit_pairs", "c20_name_twins", "c20_san_ian_twins", "c20_pub_suffix_copy_differs", "c20_raw_twins", "c20_issuer_url_twins", "c20_cdp_url_twins", "c20_strict_implies_legacy", "c20_cs_cdp_stricter", "c20_scheme_is_not_prefix", "c20_locality_rules_exclusive", "c20_province_rules_exclusive", "c20_locality_province_same", "c20_dv_values_imply_no_conflict", "c20_cert_sign_rules_agree", "c20_ku_missing_rules", "c20_root_ku_critical_same"]
 
 
 def run(ctx):
@@ -25,6 +25,14 @@ def run(ctx):
                             "GeneralNames.all_raw_lints (IA5 content of dNSNames / URIs and empty names, SAN and IAN copies) vs the real lints; members read by the harness's own TLV reader")
     if not mon:
         common.report_disagreements(ctx, "gnraw", fr, "Kernels.GeneralNames.all_raw_lints", [])
+    kheader = ("From ZL Require Import Base.Bytes Base.Corr Kernels.CaKu.\nFrom Coq Require Import ZArith List.\nImport ListNotations.\nOpen Scope Z_scope.\n"
+               "Fixpoint zl_eqk (a b : list Z) : bool := match a, b with [], [] => true | x :: a', y :: b' => (x =? y) && zl_eqk a' b' | _, _ => false end.\n"
+               "Definition chkk (c : ca_view * list Z) : bool := zl_eqk (all_ca_ku_lints (fst c)) (snd c).\n")
+    fk = common.corr_stream(ctx, "caku", d["cases"].get("caku", []), kheader, "chkk",
+                            "CaKu.all_ca_ku_lints (nineteen basicConstraints / keyUsage / extKeyUsage lints with their CheckApplies, modelled in full) vs the real lints")
+    common.require_outcomes(ctx, "caku", d["cases"].get("caku", []), [{"1", "3", "6"}] * 3 + [{"1", "3", "5"}] * 2 + [{"1", "3", "6"}, {"1", "3", "4"}] + [{"1", "3", "6"}] * 8 + [{"1", "3", "5"}, {"1", "3", "4"}, {"1", "3", "6"}, {"1", "3", "6"}])
+    if not mon:
+        common.report_disagreements(ctx, "caku", fk, "Kernels.CaKu.all_ca_ku_lints", [])
     ctx.oblige("dynamic pair monitor: on every certificate where both members of a pair run on the same content, the statuses agree (same status / finding iff finding / error implies finding); listed known findings excepted", not mon)
     never = d["data"].get("pairs_never_exercised") or []
     ctx.oblige("every one of the %d pairs was exercised with both members running" % d["stats"].get("pairs", 0), not never, str(never))
